@@ -931,6 +931,13 @@ func (r *Runner) Run(ctx context.Context, node syntax.Node) error {
 	r.fillExpandConfig(ctx)
 	r.exit = exitStatus{}
 	r.filename = ""
+	if r.origStdin != nil && ctx.Err() == nil {
+		// An earlier call whose context was cancelled while reading
+		// stdin leaves an expired read deadline behind; see cancelStdinReads.
+		// Subshells, which have no origStdin, must not do this:
+		// they run while others may be reading under the same context.
+		r.origStdin.SetReadDeadline(time.Time{})
+	}
 	switch node := node.(type) {
 	case *syntax.File:
 		r.filename = node.Name
